@@ -164,6 +164,20 @@ impl Worker {
         while let Ok(l) = self.err_rx.try_recv() {
             v.push(l);
         }
+        // an overflow report: resolve the innermost return addresses to the recursion they belong to
+        if let Some(st) = v.iter().position(|l| l == "SEGV-BT") {
+            let offs: Vec<String> = v[st + 1..]
+                .iter()
+                .filter_map(|l| {
+                    let i = l.find("(+0x")?;
+                    let j = l[i..].find(')')? + i;
+                    Some(l[i + 2..j].to_string())
+                })
+                .collect();
+            let site = resolve_overflow_site(&offs);
+            v.truncate(st);
+            v.push(format!("stack overflow OVERFLOW-AT {}", site));
+        }
         let n = v.len();
         let mut keep: Vec<String> = v.iter().filter(|l| l.contains("ALLOC-CAP") || l.contains("stack overflow") || l.contains("panicked at")).cloned().collect();
         keep.extend(v[n.saturating_sub(3)..].iter().cloned());
@@ -230,6 +244,38 @@ impl Drop for Worker {
     }
 }
 
+/// The recursion an overflow happened in: the usvg/resvg function that occurs most often among the innermost
+/// frames; when there is none, `dep:<crate>` of the most frequent foreign crate.
+fn resolve_overflow_site(offs: &[String]) -> String {
+    let exe = std::env::current_exe().unwrap();
+    let out = Command::new("addr2line").arg("-f").arg("-C").arg("-e").arg(&exe).args(offs).output();
+    let Ok(out) = out else { return "?".into() };
+    let text = String::from_utf8_lossy(&out.stdout).to_string();
+    let mut own: std::collections::BTreeMap<String, usize> = Default::default();
+    let mut dep: std::collections::BTreeMap<String, usize> = Default::default();
+    for (i, l) in text.lines().enumerate() {
+        if i % 2 != 0 {
+            continue;
+        }
+        let name = l.trim().trim_start_matches('<');
+        let krate = name.split("::").next().unwrap_or("").to_string();
+        if (name.starts_with("resvg::") || name.starts_with("usvg::")) && !name.contains("{{closure}}") && !name.contains("{closure") {
+            *own.entry(name.split('<').next().unwrap_or(name).trim_end_matches("::").to_string()).or_default() += 1;
+        } else if !["std", "core", "alloc", "vh", "libc", "", "??"].contains(&krate.as_str()) && krate.chars().all(|c| c.is_ascii_alphanumeric() || c == '_') {
+            *dep.entry(krate).or_default() += 1;
+        }
+    }
+    // most frequent (ties: alphabetical, for a stable signature)
+    let best = |m: &std::collections::BTreeMap<String, usize>| m.iter().max_by(|a, b| a.1.cmp(b.1).then(b.0.cmp(a.0))).map(|(k, _)| k.clone());
+    if let Some(f) = best(&own) {
+        f
+    } else if let Some(k) = best(&dep) {
+        format!("dep:{}", k)
+    } else {
+        "?".into()
+    }
+}
+
 pub fn hex_encode(b: &[u8]) -> String {
     let mut s = String::with_capacity(b.len() * 2);
     for x in b {
@@ -252,6 +298,21 @@ extern "C" fn on_usr1(_: i32) {
     let bt = std::backtrace::Backtrace::force_capture().to_string();
     let mut inner_crate: Option<String> = None;
     let mut func: Option<String> = None;
+    // a job that is busy in a deep recursion through definition converters (a reference graph expanded again
+    // for every user) is named after the converters that recur, which does not depend on the instant of the sample
+    let mut counts: std::collections::BTreeMap<String, usize> = Default::default();
+    for l in bt.lines() {
+        let t = l.trim();
+        let Some(i) = t.find(": ") else { continue };
+        if !t[..i].chars().all(|c| c.is_ascii_digit()) {
+            continue;
+        }
+        let name = t[i + 2..].trim_start_matches('<');
+        if (name.starts_with("resvg::") || name.starts_with("usvg::")) && !name.contains("{{closure}}") && !name.starts_with("usvg::parser::converter::") && !name.starts_with("usvg::parser::svgtree::") {
+            *counts.entry(name.split("::h").next().unwrap_or(name).to_string()).or_default() += 1;
+        }
+    }
+    let recurring: Vec<String> = counts.iter().filter(|(_, n)| **n >= 3).map(|(k, _)| k.clone()).collect();
     for l in bt.lines() {
         let t = l.trim();
         let Some(i) = t.find(": ") else { continue };
@@ -270,6 +331,9 @@ extern "C" fn on_usr1(_: i32) {
         }
     }
     // (the crate of the innermost frame goes to the log only: it varies with the instant of the sample)
+    if !recurring.is_empty() {
+        func = Some(format!("recursion[{}]", recurring.join("+")));
+    }
     let msg = format!("HANG-IN {}\nHANG-AT {}\n", inner_crate.unwrap_or_else(|| "?".into()), func.unwrap_or_else(|| "?".into()));
     unsafe {
         libc::write(2, msg.as_ptr() as *const libc::c_void, msg.len());
@@ -277,10 +341,39 @@ extern "C" fn on_usr1(_: i32) {
     }
 }
 
+/// The job ran off its stack (or touched unmapped memory): print the innermost return addresses, which the
+/// parent resolves to function names, and leave.  Runs on the alternate stack set up in `child_main`.
+extern "C" {
+    fn backtrace_symbols_fd(buffer: *const *mut libc::c_void, size: libc::c_int, fd: libc::c_int);
+}
+
+extern "C" fn on_segv(_: i32) {
+    let mut buf = [std::ptr::null_mut::<libc::c_void>(); 160];
+    unsafe {
+        let n = libc::backtrace(buf.as_mut_ptr(), 160);
+        let m = b"SEGV-BT\n";
+        libc::write(2, m.as_ptr() as *const libc::c_void, m.len());
+        backtrace_symbols_fd(buf.as_ptr(), n, 2);
+        let m = b"SEGV-END stack overflow\n";
+        libc::write(2, m.as_ptr() as *const libc::c_void, m.len());
+        libc::_exit(97);
+    }
+}
+
 pub fn child_main() {
     crate::pan::install_hook();
     unsafe {
         libc::signal(libc::SIGUSR1, on_usr1 as usize);
+        // an alternate stack for the overflow report (the one std installs is too small for an unwinder)
+        let size = 1 << 20;
+        let mem = libc::mmap(std::ptr::null_mut(), size, libc::PROT_READ | libc::PROT_WRITE, libc::MAP_PRIVATE | libc::MAP_ANONYMOUS, -1, 0);
+        let ss = libc::stack_t { ss_sp: mem, ss_flags: 0, ss_size: size };
+        libc::sigaltstack(&ss, std::ptr::null_mut());
+        let mut sa: libc::sigaction = std::mem::zeroed();
+        sa.sa_sigaction = on_segv as usize;
+        sa.sa_flags = libc::SA_ONSTACK;
+        libc::sigaction(libc::SIGSEGV, &sa, std::ptr::null_mut());
+        libc::sigaction(libc::SIGBUS, &sa, std::ptr::null_mut());
     }
     let stdin = std::io::stdin();
     let mut out = std::io::stdout();
